@@ -64,3 +64,25 @@ def plumbing_rule(rep, T):
         rep.ob("R3", "xdis.bytecode.Bytecode.__iter__", "tables-passed@%s" % v, ok,
                expected=["co_code", "opc", "co_varnames", "co_names", "co_consts", "co_cellvars + co_freevars"], derived=got,
                msg="the decoder is not given the code object's own tables (cells must be cellvars followed by freevars)")
+        # Bytecode.get_instructions(x): the tables are those of the code object of *x* (a different object than the one the Bytecode was built for)
+        gi = B.lookup("get_instructions")
+        sp3 = Spec(T.F, opaque_funcs={"get_instructions_bytes"})
+
+        def hook3(spec, name, fv, args, kw, node):
+            if name.endswith("get_code_object"):
+                return Sym("co_x", "obj!")
+            if name.endswith("findlinestarts"):
+                return Sym("linestarts_gen")
+            return NotImplemented
+        sp3.hooks.append(hook3)
+        sp3.run(gi, [inst, Sym("x2")])
+        calls3 = [e for e in sp3.effects if e.kind == "call" and "get_instructions_bytes" in str(e.args[0])]
+        ok3, got3 = False, None
+        if len(calls3) == 1:
+            a = list(calls3[0].args[1])
+            got3 = [show(x) for x in a]
+            ok3 = (len(a) >= 6 and show(a[0]) == "attr(co_x, 'co_code')" and show(a[2]) == "attr(co_x, 'co_varnames')" and show(a[3]) == "attr(co_x, 'co_names')"
+                   and show(a[4]) == "attr(co_x, 'co_consts')" and show(a[5]) == "concat(attr(co_x, 'co_cellvars'), attr(co_x, 'co_freevars'))")
+        rep.ob("R3", "xdis.bytecode.Bytecode.get_instructions", "tables-of-the-argument@%s" % v, ok3,
+               expected=["x.co_code", "opc", "x.co_varnames", "x.co_names", "x.co_consts", "x.co_cellvars + x.co_freevars"], derived=got3,
+               msg="Bytecode.get_instructions(x) resolves operands of x against tables that are not x's own (e.g. the cell table of the object the Bytecode was built for)")
